@@ -197,6 +197,24 @@ func safeCheck[C any](check func(C) Outcome, c C) (o Outcome) {
 	return check(c)
 }
 
+// drawCase runs the generator. A panic inside a generator that is not one of
+// rapid's own control-flow panics is a bug of the harness, not of the code
+// under test: it is recorded in a marker file so that the driver reports the
+// run as inconclusive instead of attributing a dead worker to the last
+// journaled case.
+func drawCase[C any](gen func(*rapid.T) C, rt *rapid.T, name string) C {
+	defer func() {
+		if r := recover(); r != nil {
+			if ty := fmt.Sprintf("%T", r); !strings.Contains(ty, "rapid.") {
+				msg := fmt.Sprintf("sub=%s generator panic: %v\n%s", name, r, debug.Stack())
+				os.WriteFile(filepath.Join(outDir(), fmt.Sprintf("harness-panic.%d.txt", shard())), []byte(msg), 0o644)
+			}
+			panic(r)
+		}
+	}()
+	return gen(rt)
+}
+
 // PanicFinding lets a Check pre-declare the finding class to use if the code
 // under test panics on this case (by default the class is "panic").
 // Usage inside a Check:  defer ev.PanicClass(&o, "zero-vertex-loop")
@@ -215,7 +233,7 @@ func Define[C any](name string, opt Options, gen func(*rapid.T) C, check func(C)
 		jpath := filepath.Join(outDir(), fmt.Sprintf("journal.%d.json", shard()))
 		flag.Set("rapid.checks", strconv.Itoa(checks))
 		rapid.Check(t, func(rt *rapid.T) {
-			c := gen(rt)
+			c := drawCase(gen, rt, name)
 			raw, err := json.Marshal(c)
 			if err != nil {
 				rt.Fatalf("harness: case does not marshal: %v", err)
